@@ -420,10 +420,14 @@ fn c14_write<F: Fam>(ctx: &Ctx, ast: &Ast, pkt: &F::Packet, bytes: &[u8]) {
     for k in 0..=m {
         for bytewise in [false, true] {
             for (fault, kind) in &faults {
-                let mut script: Vec<WA> = if bytewise { vec![WA::Accept(1); k] } else if k > 0 { vec![WA::Accept(k)] } else { vec![] };
-                script.push(*fault);
+              // sticky: the sink keeps failing; transient: it fails once and would accept everything afterwards
+              // (an encoder that carries on after a failed write leaves a hole, not a prefix)
+              for sticky in [true, false] {
+                if !sticky && *kind == ErrorKind::Interrupted {
+                    continue; // Interrupted is always delivered once
+                }
                 // whole-mode: the sink takes at most k bytes in total before the fault, whatever the call sizes
-                let mut w = LimitedSink { got: Vec::new(), limit: k, per_call: if bytewise { 1 } else { usize::MAX }, fault: *fault, fired: false };
+                let mut w = LimitedSink { got: Vec::new(), limit: k, per_call: if bytewise { 1 } else { usize::MAX }, fault: *fault, fired: false, sticky };
                 let r = guard(|| F::body(pkt, &mut w).map(|x| x.2));
                 ctx.eval(1);
                 ctx.trans(1);
@@ -438,11 +442,11 @@ fn c14_write<F: Fam>(ctx: &Ctx, ast: &Ast, pkt: &F::Packet, bytes: &[u8]) {
                 if !ok {
                     ctx.violation(
                         key("Encodable::encode", if *kind == ErrorKind::WriteZero { "zero-write" } else { "error-kind" }),
-                        format!("streaming body encoder with sink fault {:?} after {k} of {m} bytes (bytewise={bytewise}): result {:?}, sink holds {} bytes, prefix ok: {}", fault, r.as_ref().map(|o| o.as_ref().map(|r| r.as_ref().map_err(|e| e.kind()))), w.got.len(), body.starts_with(&w.got)),
-                        case(k, &format!("{:?}", fault)),
+                        format!("streaming body encoder with sink fault {:?} (sticky={sticky}) after {k} of {m} bytes (bytewise={bytewise}): result {:?}, sink holds {} bytes, prefix ok: {}", fault, r.as_ref().map(|o| o.as_ref().map(|r| r.as_ref().map_err(|e| e.kind()))), w.got.len(), body.starts_with(&w.got)),
+                        case(k, &format!("{:?}{}", fault, if sticky { "" } else { " (once)" })),
                     );
                 }
-                let _ = script;
+              }
             }
         }
     }
@@ -455,13 +459,15 @@ struct LimitedSink {
     per_call: usize,
     fault: WA,
     fired: bool,
+    /// false: the fault is answered once, later writes are accepted
+    sticky: bool,
 }
 
 impl std::io::Write for LimitedSink {
     fn write(&mut self, buf: &[u8]) -> std::io::Result<usize> {
         if self.got.len() >= self.limit {
             let interrupted = matches!(self.fault, WA::Err(ErrorKind::Interrupted));
-            if !(interrupted && self.fired) {
+            if !((interrupted || !self.sticky) && self.fired) {
                 self.fired = true;
                 return match self.fault {
                     WA::Zero => Ok(0),
@@ -469,7 +475,7 @@ impl std::io::Write for LimitedSink {
                     _ => Ok(0),
                 };
             }
-            // after the single Interrupted: accept everything
+            // after the single Interrupted / transient fault: accept everything
             let n = buf.len().min(self.per_call);
             self.got.extend_from_slice(&buf[..n]);
             return Ok(n);
@@ -546,11 +552,13 @@ fn c14_conversions(ctx: &Ctx) {
 }
 
 pub fn c14(ctx: &Ctx) {
-    ctx.set_rule("U_small plus one packet with a 2-byte and one with a 3-byte header, EVERY fault position 0..=len, kinds {ConnectionReset, ConnectionAborted, BrokenPipe, TimedOut, PermissionDenied, WouldBlock, Interrupted, InvalidData, Other, UnexpectedEof} plus end-of-stream; delivery before the fault whole and byte-wise. Read side: decode_async, Header::decode_async, poll decoder (future kept / re-created). Write side: encode_async (error kinds, zero-length write -> WriteZero) and Encodable::encode into io::Write (error kinds, Ok(0) -> WriteZero, Interrupted retried to the full encoding); the sink must hold exactly the first `pos` bytes of encode(). Conversions: 38 io::ErrorKind values through From<io::Error> for Error/ErrorV5 and back, every protocol error to InvalidData. Non-trivial = (packet, position, kind) triples with 0 < position < len");
+    ctx.set_rule("U_small plus the full packets of U_field (every optional field and property present) plus one packet with a 2-byte and one with a 3-byte header, EVERY fault position 0..=len, kinds {ConnectionReset, ConnectionAborted, BrokenPipe, TimedOut, PermissionDenied, WouldBlock, Interrupted, InvalidData, Other, UnexpectedEof} plus end-of-stream; delivery before the fault whole and byte-wise. Read side: decode_async, Header::decode_async, poll decoder (future kept / re-created). Write side: encode_async (error kinds, zero-length write -> WriteZero) and Encodable::encode into io::Write (error kinds, Ok(0) -> WriteZero, Interrupted retried to the full encoding; every fault both sticky - the sink keeps failing - and transient - it fails once and would accept everything afterwards, so an encoder that carries on after a failed write leaves a hole); the sink must hold exactly the first `pos` bytes of encode(). Conversions: 38 io::ErrorKind values through From<io::Error> for Error/ErrorV5 and back, every protocol error to InvalidData. Non-trivial = (packet, position, kind) triples with 0 < position < len");
     fn fam<F: Fam>(ctx: &Ctx) {
         let mut hosts: Vec<Ast> = u_small(F::FAMILY);
         let _ = ctx.thorough();
         hosts.extend(crate::checks::values::u_tiny(F::FAMILY));
+        // full packets: every optional field and every property present, so that every read / write site has a fault position
+        hosts.extend(mqtt_ref::genfield::bases(F::FAMILY));
         hosts.extend(gen::u_size(F::FAMILY, &[], &[128, 200, 16384]).into_iter().filter(|a| matches!(a, Ast::Publish { qos: 0, .. })));
         ctx.count(&format!("{}_packets", F::NAME), hosts.len() as u64);
         let triples = std::sync::atomic::AtomicU64::new(0);
